@@ -62,10 +62,14 @@ import "bytes"
 
 // a compressed body is decompressed from at most the declared number of bytes
 //@ func (*codec).DecodeBody
-//@   prop C05, C04
+//@   prop C05, C04, C02
 //@   assigns rstream(source)
 //@   let p0 = pos(source)
 //@   ensures nonnil: err == nil ==> body != nil && body.Message != nil
+// C02 (read side of the body prefix): in an uncompressed response carrying both warnings and a custom payload, the
+// warnings are read from right after the tracing id (or from the start of the body)
+//@   ensures warningsfirst16: err == nil && !header.Flags.Contains(primitive.HeaderFlagCompressed) && header.IsResponse && header.Flags.Contains(primitive.HeaderFlagTracing) && header.Flags.Contains(primitive.HeaderFlagWarning) && header.Flags.Contains(primitive.HeaderFlagCustomPayload) ==> len(body.Warnings) == int(primitive.rbe2(source, p0 + 16))
+//@   ensures warningsfirst0: err == nil && !header.Flags.Contains(primitive.HeaderFlagCompressed) && header.IsResponse && !header.Flags.Contains(primitive.HeaderFlagTracing) && header.Flags.Contains(primitive.HeaderFlagWarning) && header.Flags.Contains(primitive.HeaderFlagCustomPayload) ==> len(body.Warnings) == int(primitive.rbe2(source, p0))
 //@   ensures limited: header.Flags.Contains(primitive.HeaderFlagCompressed) ==> pos(source) <= p0 + ite(header.BodyLength > 0, int(header.BodyLength), int(0))
 
 // ---- C20: frame mutators keep flags and body in step --------------------------------------------------------
